@@ -61,6 +61,8 @@ REGION = os.environ.get('VH_REGION', 'main')
 MAXC = int(os.environ.get('VH_MAXC', '2'))      # largest transit / peripheral count
 NST = int(os.environ.get('VH_NST', '2'))        # statements per transit / peripheral operand (1..NST)
 SWAP = os.environ.get('VH_SWAP', '0') == '1'   # the multi-statement operand is the right-hand one
+P1LO = int(os.environ.get('VH_P1LO', '0'))         # optional case split on the first table index of a family
+P1HI = int(os.environ.get('VH_P1HI', '1000000'))
 SIZE = os.environ.get('VH_SIZE', 'quick')      # quick: smaller covariate / pair tables (see checks/C18.py bounds)
 
 # ---- documented option lists (docs/mfl.rst, grammar.py); independent of the *_WILDCARD tuples of pharmpy ------------
@@ -348,20 +350,20 @@ def _body_transits(k1, d1, k2, d2, l1, f1):
 
 def alg_transits(k1: int, d1: int, k2: int, d2: int, l1: int, f1: int) -> bool:
     """
-    pre: 0 <= k1 < NK and 0 <= l1 < NK and -1 <= k2 < NK and (NST >= 2 or k2 == -1)
+    pre: max(0, P1LO) <= k1 < min(NK, P1HI) and 0 <= l1 < NK and -1 <= k2 < NK and (NST >= 2 or k2 == -1)
     pre: 0 <= d1 < ND and 0 <= d2 < ND and 0 <= f1 < ND and (k2 >= 0 or d2 == 0)
     post: _ in (True, None)
     """
-    return _run(_body_transits, (k1, 0, NK), (d1, 0, ND), (k2, -1, NK), (d2, 0, ND), (l1, 0, NK), (f1, 0, ND))
+    return _run(_body_transits, (k1, max(0, P1LO), min(NK, P1HI)), (d1, 0, ND), (k2, -1, NK), (d2, 0, ND), (l1, 0, NK), (f1, 0, ND))
 
 
 def alg_transits__twin(k1: int, d1: int, k2: int, d2: int, l1: int, f1: int) -> bool:
     """
-    pre: 0 <= k1 < NK and 0 <= l1 < NK and -1 <= k2 < NK and (NST >= 2 or k2 == -1)
+    pre: max(0, P1LO) <= k1 < min(NK, P1HI) and 0 <= l1 < NK and -1 <= k2 < NK and (NST >= 2 or k2 == -1)
     pre: 0 <= d1 < ND and 0 <= d2 < ND and 0 <= f1 < ND and (k2 >= 0 or d2 == 0)
     post: _ == True
     """
-    return _run(_body_transits, (k1, 0, NK), (d1, 0, ND), (k2, -1, NK), (d2, 0, ND), (l1, 0, NK), (f1, 0, ND)) is not True
+    return _run(_body_transits, (k1, max(0, P1LO), min(NK, P1HI)), (d1, 0, ND), (k2, -1, NK), (d2, 0, ND), (l1, 0, NK), (f1, 0, ND)) is not True
 
 
 def _region_periph(op, m1, k2, m2, n1, a, b):
@@ -389,20 +391,20 @@ def _body_periph(k1, m1, k2, m2, l1, n1):
 
 def alg_periph(k1: int, m1: int, k2: int, m2: int, l1: int, n1: int) -> bool:
     """
-    pre: 0 <= k1 < NK and 0 <= l1 < NK and -1 <= k2 < NK and (NST >= 2 or k2 == -1)
+    pre: max(0, P1LO) <= k1 < min(NK, P1HI) and 0 <= l1 < NK and -1 <= k2 < NK and (NST >= 2 or k2 == -1)
     pre: 0 <= m1 < NP and 0 <= m2 < NP and 0 <= n1 < NP and (k2 >= 0 or m2 == 0)
     post: _ in (True, None)
     """
-    return _run(_body_periph, (k1, 0, NK), (m1, 0, NP), (k2, -1, NK), (m2, 0, NP), (l1, 0, NK), (n1, 0, NP))
+    return _run(_body_periph, (k1, max(0, P1LO), min(NK, P1HI)), (m1, 0, NP), (k2, -1, NK), (m2, 0, NP), (l1, 0, NK), (n1, 0, NP))
 
 
 def alg_periph__twin(k1: int, m1: int, k2: int, m2: int, l1: int, n1: int) -> bool:
     """
-    pre: 0 <= k1 < NK and 0 <= l1 < NK and -1 <= k2 < NK and (NST >= 2 or k2 == -1)
+    pre: max(0, P1LO) <= k1 < min(NK, P1HI) and 0 <= l1 < NK and -1 <= k2 < NK and (NST >= 2 or k2 == -1)
     pre: 0 <= m1 < NP and 0 <= m2 < NP and 0 <= n1 < NP and (k2 >= 0 or m2 == 0)
     post: _ == True
     """
-    return _run(_body_periph, (k1, 0, NK), (m1, 0, NP), (k2, -1, NK), (m2, 0, NP), (l1, 0, NK), (n1, 0, NP)) is not True
+    return _run(_body_periph, (k1, max(0, P1LO), min(NK, P1HI)), (m1, 0, NP), (k2, -1, NK), (m2, 0, NP), (l1, 0, NK), (n1, 0, NP)) is not True
 
 
 # ---- family: covariates (explicit effects; optional '?' and forced; wildcard effect list; '*' and '+') -----------------
@@ -480,18 +482,18 @@ def _body_pair(x, kx, ex, y, ky):
 
 def alg_pair(x: int, kx: int, ex: int, y: int, ky: int) -> bool:
     """
-    pre: 0 <= x < NA and 0 <= y < NA and -1 <= ex < NE and 0 <= kx < NK and 0 <= ky < NK
+    pre: max(0, P1LO) <= x < min(NA, P1HI) and 0 <= y < NA and -1 <= ex < NE and 0 <= kx < NK and 0 <= ky < NK
     post: _ in (True, None)
     """
-    return _run(_body_pair, (x, 0, NA), (kx, 0, NK), (ex, -1, NE), (y, 0, NA), (ky, 0, NK))
+    return _run(_body_pair, (x, max(0, P1LO), min(NA, P1HI)), (kx, 0, NK), (ex, -1, NE), (y, 0, NA), (ky, 0, NK))
 
 
 def alg_pair__twin(x: int, kx: int, ex: int, y: int, ky: int) -> bool:
     """
-    pre: 0 <= x < NA and 0 <= y < NA and -1 <= ex < NE and 0 <= kx < NK and 0 <= ky < NK
+    pre: max(0, P1LO) <= x < min(NA, P1HI) and 0 <= y < NA and -1 <= ex < NE and 0 <= kx < NK and 0 <= ky < NK
     post: _ == True
     """
-    return _run(_body_pair, (x, 0, NA), (kx, 0, NK), (ex, -1, NE), (y, 0, NA), (ky, 0, NK)) is not True
+    return _run(_body_pair, (x, max(0, P1LO), min(NA, P1HI)), (kx, 0, NK), (ex, -1, NE), (y, 0, NA), (ky, 0, NK)) is not True
 
 
 # ---- family: indirect effect (mode list x production) ------------------------------------------------------------------
@@ -528,7 +530,7 @@ def _body_indirect(m1, p1, m2, p2, n1, q1):
 def alg_indirect(m1: int, p1: int, m2: int, p2: int, n1: int, q1: int) -> bool:
     """
     pre: 0 <= m1 < NIM and -1 <= m2 < NIM and 0 <= n1 < NIM and 0 <= p1 < NIP and 0 <= p2 < NIP and 0 <= q1 < NIP
-    pre: m2 >= 0 or p2 == 0
+    pre: (m2 >= 0 or p2 == 0) and (NST >= 2 or m2 == -1)
     post: _ in (True, None)
     """
     return _run(_body_indirect, (m1, 0, NIM), (p1, 0, NIP), (m2, -1, NIM), (p2, 0, NIP), (n1, 0, NIM), (q1, 0, NIP))
@@ -537,7 +539,7 @@ def alg_indirect(m1: int, p1: int, m2: int, p2: int, n1: int, q1: int) -> bool:
 def alg_indirect__twin(m1: int, p1: int, m2: int, p2: int, n1: int, q1: int) -> bool:
     """
     pre: 0 <= m1 < NIM and -1 <= m2 < NIM and 0 <= n1 < NIM and 0 <= p1 < NIP and 0 <= p2 < NIP and 0 <= q1 < NIP
-    pre: m2 >= 0 or p2 == 0
+    pre: (m2 >= 0 or p2 == 0) and (NST >= 2 or m2 == -1)
     post: _ == True
     """
     return _run(_body_indirect, (m1, 0, NIM), (p1, 0, NIP), (m2, -1, NIM), (p2, 0, NIP), (n1, 0, NIM), (q1, 0, NIP)) is not True
